@@ -202,7 +202,15 @@ impl XsdtCtx {
         XsdtCtx { t: acpi_tables::xsdt::XSDT::new(oem.0, oem.1, oem.2), tb }
     }
     pub fn e(&mut self) {
-        let v: u64 = kani::any();
+        let v: u64 = crate::common::sv();
+        self.t.add_entry(v);
+        let mut e: Exp<8> = Exp::new();
+        e.u64(v);
+        self.tb.push(&e, 0);
+    }
+    /// a fixed pointer value (`e_fixed(v)` twice adds the same pointer twice; `e_fixed(0)` adds a
+    /// null pointer): the table records every pointer it is given, in order
+    pub fn e_fixed(&mut self, v: u64) {
         self.t.add_entry(v);
         let mut e: Exp<8> = Exp::new();
         e.u64(v);
@@ -227,13 +235,22 @@ impl McfgCtx {
         McfgCtx { t: acpi_tables::mcfg::MCFG::new(oem.0, oem.1, oem.2), tb }
     }
     pub fn e(&mut self) {
-        let base: u64 = kani::any();
-        let seg: u16 = kani::any();
-        let s: u8 = kani::any();
-        let e_: u8 = kani::any();
+        let base: u64 = crate::common::sv();
+        let seg: u16 = crate::common::sv();
+        let s: u8 = crate::common::sv();
+        let e_: u8 = crate::common::sv();
         self.t.add_ecam(base, seg, s, e_);
         let mut e: Exp<16> = Exp::new();
         e.u64(base).u16(seg).u8(s).u8(e_).zeros(4);
+        self.tb.push(&e, 0);
+    }
+    /// an allocation whose segment group and bus range are fixed (and so collide with every other
+    /// `e_same` call): the crate records what it is given, it does not merge or drop allocations
+    pub fn e_same(&mut self) {
+        let base: u64 = crate::common::sv();
+        self.t.add_ecam(base, 7, 0, 255);
+        let mut e: Exp<16> = Exp::new();
+        e.u64(base).u16(7).u8(0).u8(255).zeros(4);
         self.tb.push(&e, 0);
     }
     pub fn check<const P: u8>(&self) {
@@ -253,8 +270,8 @@ impl MadtCtx {
         let oem = oem_for(p, has_adds);
         let mut tb: TB<320> = TB::new();
         std_new!(tb, b"APIC", oem);
-        let riscv: bool = kani::any();
-        let addr: u32 = kani::any();
+        let riscv: bool = crate::common::sv();
+        let addr: u32 = crate::common::sv();
         tb.exp.u32(if riscv { 0 } else { addr }).u32(0);
         let lic = if riscv { LocalInterruptController::Riscv } else { LocalInterruptController::Address(addr) };
         MadtCtx { t: MADT::new(oem.0, oem.1, oem.2, lic), tb }
@@ -503,7 +520,7 @@ pub struct RhctCtx {
 impl RhctCtx {
     pub fn new_p(p: u8, has_adds: bool) -> Self {
         let oem = oem_for(p, has_adds);
-        let freq: u64 = kani::any();
+        let freq: u64 = crate::common::sv();
         let mut tb: TB<320> = TB::new();
         std_new!(tb, b"RHCT", oem);
         // flags/reserved 4, time base frequency 8, number of nodes 4 (patched by summary), offset 4
@@ -1047,6 +1064,26 @@ macro_rules! seq {
                 c.$m($($a),*);
                 c.check::<P>();
             )*
+            kani::cover!(true, "REACHED");
+        }
+    };
+}
+
+/// Concrete twin of `seq!` (see `common::FIXED`): every entry value is the concrete pattern
+/// `$mode - 1`, so same-kind entries are identical; the OEM fields stay symbolic. Asserts on the final image.
+#[macro_export]
+macro_rules! seqfx {
+    ($name:ident, $ctx:ident, $unw:expr, $mode:expr, [$($m:ident ( $($a:expr),* )),* $(,)?]) => {
+        #[kani::proof]
+        #[kani::unwind($unw)]
+        pub fn $name() {
+            unsafe { $crate::common::FIXED = $mode };
+            let mut c = $crate::tables::$ctx::new_p(P, true);
+            kani::cover!(true, "CALLING");
+            $(
+                c.$m($($a),*);
+            )*
+            c.check::<P>();
             kani::cover!(true, "REACHED");
         }
     };
